@@ -25,6 +25,17 @@ if _deps.is_numpy_available():
     import numpy.typing as npt
 
 
+def expand_type_alias(hinted_type: typing.Any) -> typing.Any:  # noqa: ANN401
+    """Replace a (subscripted) PEP 695 type alias, as npt.NDArray is in recent numpy versions, by the type it stands for."""
+    # typing.TypeAliasType only exists from python 3.12, aliases are recognized by their __value__
+    origin = typing.get_origin(hinted_type)
+    if hasattr(origin, "__value__"):
+        return origin.__value__[typing.get_args(hinted_type)]
+    if hasattr(hinted_type, "__value__"):
+        return hinted_type.__value__
+    return hinted_type
+
+
 def _resolve_numpy_dtype(
     np_array_t: type[npt.NDArray[typing.Any]],
 ) -> list[npt.DTypeLike]:
@@ -136,6 +147,7 @@ class TensorTypeBase:
 
             return tensor
 
+        source_type = expand_type_alias(source_type)
         if _deps.is_numpy_available() and typing.get_origin(source_type) is np.ndarray:  # pyright: ignore[reportPossiblyUnboundVariable]
             dtypes = _resolve_numpy_dtype(source_type)
             if self.DTYPES and any(dtype not in self.DTYPES for dtype in dtypes):
